@@ -319,10 +319,13 @@ pub fn find_header_with_limits<R: Read + Seek>(
         // Try to read a signature
         let signature = match reader.read_u32::<LittleEndian>() {
             Ok(sig) => sig,
-            Err(_) => {
+            Err(e) if e.kind() == std::io::ErrorKind::UnexpectedEof => {
                 offset += HEADER_ALIGNMENT;
                 continue;
             }
+            // Anything else (e.g. EISDIR when the path is a directory, whose "size" can be
+            // close to i64::MAX) will fail at every offset: report it instead of scanning on
+            Err(e) => return Err(Error::Io(e)),
         };
 
         match signature {
